@@ -160,7 +160,7 @@ type vInfo struct {
 	elems   []any // for slices: the elements, boxed, in order (nil when not checked element-wise)
 }
 
-const vCatalogueSize = 46
+const vCatalogueSize = 47
 
 // vAnyOf returns a value whose dynamic type is chosen (by forking) from the catalogue; scalar
 // contents are symbolic. The info says what the *documentation* promises about it.
@@ -264,8 +264,10 @@ func vAnyOf(label string) (any, vInfo) {
 		return NewResult(vNondet[int](label + ".v")), vInfo{} // the library's own Result as a payload: a struct, not a number
 	case 44:
 		return NewResult([]int{vNondet[int](label + ".v"), 2}), vInfo{} // ... not a slice either
-	default:
+	case 45:
 		return NewResult(vNondet[string](label + ".v")), vInfo{} // ... nor a string
+	default:
+		return map[string]any(nil), vInfo{isMap: true} // a typed nil map: still a map[string]any
 	}
 }
 
